@@ -130,7 +130,7 @@ struct em {
 	struct em_q active[EM_MAXPRI], later, ctlq[EM_NCTL];
 	int64_t ctl_dur[EM_NCTL];
 	int nctl;
-	int count, count_max, nactive, nactive_max, virt, virt_max;
+	int count, count_max, count_max_hi, nactive, nactive_max, virt, virt_max;
 	int term, brk, cont, running, running_pri, ndeferred, current;
 	int limit_eff;        /* effective limit_callbacks_after_prio */
 	/* signals (one signal number) */
@@ -165,6 +165,8 @@ int  em_in_foreach(const struct em *m, int id);                /* visited by eve
 int  em_num_events(const struct em *m, unsigned mask);
 int  em_max_events(struct em *m, unsigned mask, int clear);
 void em_virtual(struct em *m, int delta);
+void em_max_added_range(const struct em *m, int *lo, int *hi);
+void em_max_added_resolve(struct em *m, int v);
 /* base */
 int  em_common_init(struct em *m, int64_t dur_us);             /* event_base_init_common_timeout → queue index, -1 = full */
 int  em_loopexit(struct em *m, int has_tv, int64_t tv_us);     /* 0 ok, -2 = model table full (harness must not call the library) */
